@@ -603,6 +603,20 @@ class Interp:
             base = base.base
         if not isinstance(base, Arr):
             self.err(node, "store into non-array")
+        # unroll full slices over axes of small literal extent (e.g. the coordinate axis)
+        if base.shape is not None and len(spec) <= len(base.shape):
+            full = list(spec) + [("all",)] * (len(base.shape) - len(spec))
+            for ax, sp in enumerate(full):
+                ext = base.shape[ax]
+                if sp[0] == "all" and isinstance(ext, int) and ext <= 16 and isinstance(v, (Arr, View, OpqArr, Tensor)):
+                    free_before = sum(1 for q in full[:ax] if q[0] != "fix")
+                    nfree = sum(1 for q in full if q[0] != "fix")
+                    for c in range(ext):
+                        sub_spec = list(full)
+                        sub_spec[ax] = ("fix", c)
+                        vv = self.subscript(v, [("all",)] * free_before + [("fix", c)] + [("all",)] * (nfree - free_before - 1), node) if nfree > 1 else self.index(v, [c], node)
+                        self.write(base, sub_spec, op, vv, node)
+                    return
         # expand slices with fresh bound variables when RHS is an array-like
         pattern, bound, rhs = self.expand_store(base, spec, v, node)
         if op != "=":
@@ -831,6 +845,12 @@ class Interp:
             if s[0] == "off" and s[2] is not None:
                 return s[2]
             return self.shape_of(seq.base, fa[0])
+        if isinstance(seq, OpqArr) and getattr(seq, "length", None) is not None:
+            return seq.length
+        if isinstance(seq, Lazy):
+            for o in seq.operands:
+                if isinstance(o, (Arr, View, OpqArr, Tensor)):
+                    return self.length(o, node)
         if isinstance(seq, (Arr, OpqArr)):
             return self.shape_of(seq, 0)
         self.err(node, "len() of unsupported value")
@@ -1135,6 +1155,8 @@ class Interp:
         if e.attr == "T" and isinstance(base, Tensor) and len(base.shape) == 2:
             n, m = base.shape
             return Tensor((m, n), [base.get([i, j]) for j in range(m) for i in range(n)])
+        if e.attr == "T" and isinstance(base, (Arr, View, OpqArr)) and _ndim(base) == 2:
+            return Transposed(base)
         if isinstance(base, Opq):
             if base.kind == "module":
                 return Opq(base.desc + "." + e.attr, "module")
@@ -1654,10 +1676,69 @@ def _np_identity(it, args, kw, e):
     return args[0]
 
 
+class Arange(OpqArr):
+    """np.arange(n) with symbolic n: [k] -> k."""
+
+    def __init__(self, n):
+        OpqArr.__init__(self, "arange", 1)
+        self.n = n
+        self.length = tov(n)
+
+    def sub(self, it, spec, node):
+        if len(spec) == 1 and spec[0][0] == "fix":
+            return tov(spec[0][1])
+        return View(self, list(spec))
+
+
+class Repeat(OpqArr):
+    """np.repeat(a, m): [s] -> a[s div m]."""
+
+    def __init__(self, it, a, m, node):
+        OpqArr.__init__(self, "repeat", 1)
+        self.a, self.m = a, tov(m)
+        self.length = tov(it.length(a, node)) * self.m
+
+    def sub(self, it, spec, node):
+        if len(spec) == 1 and spec[0][0] == "fix":
+            q = simplify_index(opaque_atom("DIV", [tov(spec[0][1]), self.m]))
+            return it.index(self.a, [q], node)
+        return View(self, list(spec))
+
+
+class Tile(OpqArr):
+    """np.tile(a, m): [s] -> a[s mod len(a)]."""
+
+    def __init__(self, it, a, m, node):
+        OpqArr.__init__(self, "tile", 1)
+        self.a = a
+        self.alen = tov(it.length(a, node))
+        self.length = self.alen * tov(m)
+
+    def sub(self, it, spec, node):
+        if len(spec) == 1 and spec[0][0] == "fix":
+            q = simplify_index(opaque_atom("MOD", [tov(spec[0][1]), self.alen]))
+            return it.index(self.a, [q], node)
+        return View(self, list(spec))
+
+
 def _np_arange(it, args, kw, e):
     if len(args) == 1 and isinstance(args[0], int):
         return Tensor((args[0],), [V.const(i) for i in range(args[0])])
-    it.err(e, "arange of symbolic length")
+    if len(args) == 1:
+        return Arange(args[0])
+    it.err(e, "arange with start/step")
+
+
+def _np_repeat(it, args, kw, e):
+    if len(args) != 2 or kw:
+        it.err(e, "repeat with axis")
+    return Repeat(it, args[0], args[1], e)
+
+
+def _np_tile(it, args, kw, e):
+    if len(args) != 2:
+        it.err(e, "tile arity")
+    return Tile(it, args[0], args[1], e)
 
 
 class Stack(OpqArr):
@@ -1685,20 +1766,40 @@ class Stack(OpqArr):
 
 
 class Expand(OpqArr):
-    """np.expand_dims(a, 0)."""
+    """np.expand_dims(a, axis) for axis in (0, 1) (axis 1 only for rank-1 operands: column vector, broadcast on read)."""
 
-    def __init__(self, ref):
+    def __init__(self, ref, axis=0):
         nd = _ndim(ref)
         OpqArr.__init__(self, "expand_dims", None if nd is None else nd + 1)
         self.ref = ref
+        self.axis = axis
 
     def sub(self, it, spec, node):
+        if self.axis == 1:
+            if len(spec) == 2 and spec[0][0] == "fix":
+                return it.subscript(self.ref, [spec[0]], node)  # size-1 axis: broadcasting ignores the second index
+            full = list(spec) + [("all",)] * (2 - len(spec))
+            return View(self, full)
         if spec and spec[0][0] == "fix":
             if _try_int(spec[0][1]) == 0:
                 return it.subscript(self.ref, spec[1:], node) if spec[1:] else self.ref
             it.err(node, "index into expand_dims axis is not 0")
         nd = self.ndim
         full = list(spec) + ([("all",)] * (nd - len(spec)) if nd else [])
+        return View(self, full)
+
+
+class Transposed(OpqArr):
+    """a.T for rank-2 array-likes."""
+
+    def __init__(self, ref):
+        OpqArr.__init__(self, "T", 2)
+        self.ref = ref
+
+    def sub(self, it, spec, node):
+        if len(spec) == 2:
+            return it.subscript(self.ref, [spec[1], spec[0]], node)
+        full = list(spec) + [("all",)] * (2 - len(spec))
         return View(self, full)
 
 
@@ -1710,9 +1811,11 @@ def _np_vstack(it, args, kw, e):
 
 
 def _np_expand_dims(it, args, kw, e):
-    if len(args) != 2 or args[1] != 0:
-        it.err(e, "expand_dims on an axis other than 0")
-    return Expand(args[0])
+    if len(args) != 2 or args[1] not in (0, 1):
+        it.err(e, "expand_dims on an axis other than 0 or 1")
+    if args[1] == 1 and _ndim(args[0]) not in (1,):
+        it.err(e, "expand_dims(axis=1) of a non-vector")
+    return Expand(args[0], args[1])
 
 
 def _np_eye(it, args, kw, e):
@@ -1733,6 +1836,8 @@ for _p in ("_np", "np", "numpy"):
     _NP_FUNCS[_p + ".asfortranarray"] = _np_identity
     _NP_FUNCS[_p + ".ascontiguousarray"] = _np_identity
     _NP_FUNCS[_p + ".arange"] = _np_arange
+    _NP_FUNCS[_p + ".repeat"] = _np_repeat
+    _NP_FUNCS[_p + ".tile"] = _np_tile
     _NP_FUNCS[_p + ".zeros"] = _np_zeros("zeros")
     _NP_FUNCS[_p + ".empty"] = _np_zeros("empty")
     _NP_FUNCS[_p + ".array"] = _np_array
